@@ -456,6 +456,32 @@ mod proofs {
         }
     }
 
+    // @harness id=C08 tier=quick unwind=72 timeout=1800
+    // @desc multi-word division with remainder (bit-wise algorithm): quotient * d + remainder == numerator and remainder < d, for numerators above one word (including exact divisions, remainder 0) -- divisor 3
+    // @bounds two-word operands; numerator any value below 2^66; divisor 3 (concrete, so that the reference q*d+r needs no symbolic product); all loop trip counts covered by the unwinding assertion (unwind 72)
+    // @funcs divide_uint, divide_uint_inplace, left_shift_uint, left_shift_uint_inplace, right_shift_uint_inplace, sub_uint, add_uint_inplace, get_significant_bit_count_uint
+    #[kani::proof]
+    fn c08_divide_uint_multiword_d3() { div_case(3, 4) }
+
+    // @harness id=C08 tier=quick unwind=72 timeout=1800
+    // @desc multi-word division with remainder, two-word divisor 2^64+3 and one-word divisor 2^63+1: quotient * d + remainder == numerator, remainder < d
+    // @bounds two-word operands; numerator below 2^68 (divisor 2^64+3) resp. below 2^66 (divisor 2^63+1)
+    // @funcs divide_uint, divide_uint_inplace, left_shift_uint, left_shift_uint_inplace, right_shift_uint_inplace, sub_uint, add_uint_inplace
+    #[kani::proof]
+    fn c08_divide_uint_multiword_big_divisors() { let c: bool = kani::any(); if c { div_case((1u128 << 64) + 3, 16) } else { div_case((1u128 << 63) + 1, 4) } }
+
+    fn div_case(d: u128, top: u64) {
+        let lo: u64 = kani::any(); let hi: u64 = kani::any(); kani::assume(hi < top);
+        let n = (lo as u128) | ((hi as u128) << 64);
+        let mut q = [0u64; 2]; let mut r = [0u64; 2];
+        divide_uint(&[lo, hi], &[d as u64, (d >> 64) as u64], &mut q, &mut r);
+        let qv = (q[0] as u128) | ((q[1] as u128) << 64); let rv = (r[0] as u128) | ((r[1] as u128) << 64);
+        kani::cover!(hi > 0 && rv == 0);
+        kani::cover!(hi > 0 && rv != 0);
+        assert!(rv < d);
+        assert!(qv.checked_mul(d).and_then(|p| p.checked_add(rv)) == Some(n));      // exact in u128: no wrap-around
+    }
+
     // @harness id=C08 tier=quick unwind=5 timeout=300 kf=set_bit_uint_i32_shift
     // @desc div2_uint_mod for odd operands whose sum with the modulus carries out of the top word: result h < m with 2h = a (mod m)
     // @bounds word count 2, odd modulus >= 2^127, odd operand with a + m >= 2^128
